@@ -107,6 +107,7 @@ func runC20(c *eng.Ctx, tier string) {
 		c.Undecided("anchor", nil, 0, "setec.fieldInfo.apply / Fields.Apply / Fields.Secrets / parseFields", "anchors do not resolve")
 		return
 	}
+	wholeInputJSON(c, "R-C20-3")
 	// R-C20-1
 	n1 := 0
 	for _, f := range p.PkgFuncs(setecPkg) {
